@@ -239,12 +239,19 @@ func c02Nesting(s *Sess, b string) {
 		r2 := do(s.h, Req{Method: "PUT", Path: "/" + b + "/" + second, Body: []byte("second:" + second)})
 		s1, b1 := get(first)
 		s2, b2 := get(second)
-		ok := s1 == 200 && b1 == "first:"+first && ((r2.Status >= 400 && s2 == 404) || (r2.Status == 200 && s2 == 200 && b2 == "second:"+second))
-		msg := fmt.Sprintf("%s: PUT %q (200) then PUT %q (%d): GET %q answers %d %q, GET %q answers %d %q", s.kind, first, second, r2.Status, first, s1, b1, second, s2, b2)
+		// what is served is listed, what is not served is not
+		l := do(s.h, Req{Method: "GET", Path: "/" + b})
+		listed := map[string]bool{}
+		for _, lk := range xmlAll(string(l.Body), "Key") {
+			listed[lk] = true
+		}
+		ok := s1 == 200 && b1 == "first:"+first && ((r2.Status >= 400 && s2 == 404) || (r2.Status == 200 && s2 == 200 && b2 == "second:"+second)) &&
+			l.Status == 200 && listed[first] && listed[second] == (s2 == 200)
+		msg := fmt.Sprintf("%s: PUT %q (200) then PUT %q (%d): GET %q answers %d %q, GET %q answers %d %q; the bucket listing (%d) shows %q: %v, %q: %v", s.kind, first, second, r2.Status, first, s1, b1, second, s2, b2, l.Status, first, listed[first], second, listed[second])
 		if ok {
-			emit("c02", "GOOD", hs(msg))
+			emit(s.prop, "GOOD", hs(msg))
 		} else {
-			emit("c02", "BAD", hs("S:acknowledged-write-lost-to-a-nested-key "+msg))
+			emit(s.prop, "BAD", hs("S:acknowledged-write-lost-to-a-nested-key "+msg))
 		}
 		do(s.h, Req{Method: "DELETE", Path: "/" + b + "/" + second})
 		do(s.h, Req{Method: "DELETE", Path: "/" + b + "/" + first})
